@@ -134,6 +134,7 @@ def _run_case(case, ctx):
     rate, bs = setting["rate"], tuple(setting["blockshape"])
     bpv, bsarg = gen.spelled_args(setting)
     out = os.path.join(d, "out.sgz")
+    conv.leave_stale(out, repr(case["shape"]) + repr(case["values"]) + case["check"])
     route = case["check"]
     earlier = []
     if case.get("pre"):
